@@ -236,6 +236,22 @@ def pool_items(quick):
     add("num-huge", I(1 << 1023)); add("num-huge", floatof(1 << 1023))
     add("num-huge", I(1 << 1024), True)             # larger than every finite float
     add("num-huge", I(-(1 << 1024)))
+    # equal int/float pairs at NON-power-of-two integral values over many magnitudes (the hash of a float must be
+    # the hash of the equal int whatever its size: low machine words non-zero below 2^84), both signs, and the
+    # same values inside tuple keys
+    mags = [(1 << k) + (1 << (k - 52)) for k in (54, 60, 63, 64, 65, 70, 80, 83, 84, 90, 100, 200)]
+    mags += [int(f) for f in (1e20, 3e19, 1e22, 123456789e15)]
+    for n in mags:
+        assert int(float(n)) == n
+        for sgn in (1, -1):
+            add("num-intfloat", I(sgn * n), True)
+            add("num-intfloat", floatof(sgn * n), True)
+    for k, n in enumerate(mags):
+        q = k in (1, 3, 4, 7, 12, 13)
+        add("num-intfloat-key", T(I(n), S("k")), q)
+        add("num-intfloat-key", T(floatof(n), S("k")), q)
+        add("num-intfloat-key", T(I(-n)), False)
+        add("num-intfloat-key", T(floatof(-n)), False)
     add("num-nonfinite", F(INF), True); add("num-nonfinite", F(-INF), True)
     add("num-nonfinite", V("float", NAN), True)
     add("num-nonfinite", V("float", NAN, src='(-float("nan"))'), True)     # another NaN (sign bit)
